@@ -371,7 +371,7 @@ var reviewedLoops = map[string]reviewedLoop{
 
 func checkC01(c *Ctx) {
 	p, r := c.P, c.R
-	r.Explanation = "Decided statically (necessary conditions of 'never crashes, spins or deadlocks'): the main loop blocks in WaitAvailableKeys on every iteration; every natural loop in the module (234 on the pinned tree) has a recognised termination variant — counted (P1), shrinking slice (P2), blocking read per iteration (P3), Scanner (P4), range (P5) — or is in a reviewed table with its ranking argument and, where possible, a structural condition re-verified each run; call-graph cycles among module functions match a reviewed table with bound arguments; no explicit panic is reachable; every dynamic call of a func value loaded from a struct field or map is dominated by a non-nil test; no value that a function compares with nil is dereferenced where it may be nil (contradiction rule, whole module); buffers obtained from a terminal read or key channel are indexed only under a length check; end-of-input / read errors leave the wait loop and reach Readline's caller; channel sends on the input path cannot block forever; execute ends in the cursor clamp. every index and slice bound of the commands (root package) and of the editing primitives (internal/core) is proved in range — non-negative (C01.nonneg) and below the length / ordered (C01.bounds) — by the zone-domain prover with heap length terms, or is listed in a reviewed table with its reason; the regexp pointer fields that their users test for nil are tested by all of them. NOT decided: bounds in packages completion, history, display, strutil, color; nil dereferences of values that no function compares with nil; panics inside application callbacks."
+	r.Explanation = "Decided statically (necessary conditions of 'never crashes, spins or deadlocks'): the main loop blocks in WaitAvailableKeys on every iteration; every natural loop in the module (234 on the pinned tree) has a recognised termination variant — counted (P1), shrinking slice (P2), blocking read per iteration (P3), Scanner (P4), range (P5) — or is in a reviewed table with its ranking argument and, where possible, a structural condition re-verified each run; call-graph cycles among module functions match a reviewed table with bound arguments; no explicit panic is reachable; every dynamic call of a func value loaded from a struct field or map is dominated by a non-nil test; no value that a function compares with nil is dereferenced where it may be nil (contradiction rule, whole module); buffers obtained from a terminal read or key channel are indexed only under a length check; end-of-input / read errors leave the wait loop and reach Readline's caller; channel sends on the input path cannot block forever; execute ends in the cursor clamp. every index and slice bound of the module outside inputrc (proved under C12) and outside the completion menu's grid — the commands (root package), internal/core, history, keymap, macro, editor, display, ui, term, color, strutil and the non-grid part of completion — is proved in range — non-negative (C01.nonneg) and below the length / ordered (C01.bounds) — by the zone-domain prover with heap length terms, or is listed in a reviewed table with its reason; the regexp pointer fields that their users test for nil are tested by all of them. a macro that runs itself is cut off by the feed budget (C01.macro-budget); the index of the active history source stays inside the list of names (C01.source-pos); a function value that may be nil by construction, also through a resolver or a parameter, is called only under a nil test (C01.nil-func-call). NOT decided: the bounds of the completion menu's grid (methods of completion.group, renderCompletions, highlightDesc, highlightDisplay, justifyGroups, createRow/createGrid: the C15 problem); nil dereferences of values that no function compares with nil; panics inside application callbacks."
 	r.Trusted = []string{"go/packages type checker", "go/ssa construction", "VTA call graph over CHA", "reviewed tables in rlcheck/c01.go (loops, recursion, nil-call exemptions)"}
 	r.Assumptions = []string{"application callbacks (Completer, prompt functions, SyntaxHighlighter) terminate and do not panic", "the terminal eventually delivers input or end-of-input",
 		"C01.bounds: the cursor and selection stored next to a line in one struct (line/cursor/selection, compLine/compCursor) are built on that line (object-triple assumption; the one known exception, GetBuffer's completed-line triple, is described in DESIGN.md §13)",
@@ -594,6 +594,7 @@ func checkC01(c *Ctx) {
 	checkNilBelief(c, "C01.nil-belief")
 	checkNilFuncCall(c)
 	checkMacroBudget(c)
+	checkSourcePos(c)
 }
 
 // ---------------- recursion ----------------
